@@ -152,15 +152,51 @@ Proof.
 Qed.
 Print Assumptions C10_linear_dense_output_is_kernel_polynomial.
 
+(* Headline form of local exactness: for every tableau, dimension, step size
+   and linear generator,  y_front = sum_j p_j (dt L)^j y_prev  where p is the
+   symbolic run of the kernel at step size 1 - the list whose entries
+   C10_taylor_coefficients (below) shows to be 1/j! up to 2^-40 for j <= order
+   when the tableau is one of those in the source.  Step size and generator
+   enter only through dt*L. *)
+Theorem C10_linear_step_taylor_form :
+  forall (C V : Type) (cadd cmul : C -> C -> C) (czero cone : C) (ciszero : C -> bool)
+         (vadd : V -> V -> V) (vscal : C -> V -> V) (vzero : V) (L : V -> V),
+    (forall a b, cmul a b = cmul b a) ->
+    (forall a, cmul cone a = a) ->
+    (forall c v, ciszero c = true -> vscal c v = vzero) ->
+    (forall u v, vadd u v = vadd v u) ->
+    (forall u v w, vadd u (vadd v w) = vadd (vadd u v) w) ->
+    (forall v, vadd v vzero = v) ->
+    (forall a b v, vscal (cadd a b) v = vadd (vscal a v) (vscal b v)) ->
+    (forall c u v, vscal c (vadd u v) = vadd (vscal c u) (vscal c v)) ->
+    (forall a b v, vscal (cmul a b) v = vscal a (vscal b v)) ->
+    (forall v, vscal czero v = vzero) ->
+    (forall v, vscal cone v = v) ->
+    (forall c, vscal c vzero = vzero) ->
+    (forall u v, L (vadd u v) = vadd (L u) (L v)) ->
+    (forall c v, L (vscal c v) = vscal c (L v)) ->
+    forall (tb : tableau C) (t dt : C) (y : V),
+      compute_step C V cadd cmul czero ciszero vadd vscal (fun _ => L) tb t y dt
+      = peval C V vadd vscal vzero (fun v => vscal dt (L v)) y
+          (compute_step C (list C) cadd cmul czero ciszero
+             (padd C cadd) (pscal C cmul) (fun _ => pshift C czero) tb t [cone] cone).
+Proof.
+  intros C V cadd cmul czero cone ciszero vadd vscal vzero L
+         H1 H2 H3 H4 H5 H6 H7 H8 H9 H10 H11 H12 H13 H14 tb t dt y.
+  exact (step_taylor_form C V cadd cmul czero cone ciszero vadd vscal vzero L
+           H1 H2 H3 H4 H5 H6 H7 H8 H9 H10 H11 H12 H13 H14 tb t dt y).
+Qed.
+Print Assumptions C10_linear_step_taylor_form.
+
 (* non-vacuity of the module hypotheses: V = C = Z, L = multiplication by 3;
    a 2-stage tableau; the step and its polynomial form agree (and are not
    trivial) *)
 Example C10_nonvacuous_linear :
   let tb := mk_tableau Z [[0; 0]; [2; 0]]%Z [1; 3]%Z [0; 2]%Z false [] in
-  compute_step Z Z Z.add Z.mul 0%Z (Z.eqb 0) Z.add Z.mul (fun _ v => (3 * v)%Z) tb 0%Z 5%Z 2%Z = 755%Z
+  compute_step Z Z Z.add Z.mul 0%Z (Z.eqb 0) Z.add Z.mul (fun _ v => (3 * v)%Z) tb 0%Z 5%Z 2%Z = 1205%Z
   /\ compute_step Z (list Z) Z.add Z.mul 0%Z (Z.eqb 0) (padd Z Z.add) (pscal Z Z.mul)
-                  (fun _ => pshift Z 0%Z) tb 0%Z [1%Z] 2%Z = [1; 8; 12]%Z
-  /\ peval Z Z Z.add Z.mul 0%Z (fun v => (3 * v)%Z) 5%Z [1; 8; 12]%Z = 755%Z.
+                  (fun _ => pshift Z 0%Z) tb 0%Z [1%Z] 2%Z = [1; 8; 24]%Z
+  /\ peval Z Z Z.add Z.mul 0%Z (fun v => (3 * v)%Z) 5%Z [1; 8; 24]%Z = 1205%Z.
 Proof. vm_compute. repeat split. Qed.
 
 (* --------------------------------------------------------- tableaux --- *)
@@ -302,3 +338,21 @@ Proof.
   - destruct (stack_idx_inj n i j i' j' H H0 H1). assumption.
 Qed.
 Print Assumptions C10_unstack_stack.
+
+(* ------------------------------------------- meaning of the dyadics --- *)
+
+(* the arithmetic used for the tableau statements is exact rational
+   arithmetic: conversion of a dyadic rational, sum and product commute with
+   dy2Q : dy -> Q (exponents stay non-negative), and dclose is the stated
+   inequality in Q *)
+Theorem C10_dyadic_arithmetic_is_exact :
+  (forall q, q_is_dyadic q = true -> dwf (q2dy q) /\ (dy2Q (q2dy q) == q)%Q) /\
+  (forall x y, dwf x -> dwf y -> dwf (dadd x y) /\ (dy2Q (dadd x y) == dy2Q x + dy2Q y)%Q) /\
+  (forall x y, dwf x -> dwf y -> dwf (dmul x y) /\ (dy2Q (dmul x y) == dy2Q x * dy2Q y)%Q) /\
+  (forall k m e g tgt, (0 <= e)%Z -> (0 <= k)%Z -> dclose k (m, e) g tgt = true ->
+     (Qabs.Qabs (dy2Q (m, e) * inject_Z g - inject_Z tgt) <= 1 / inject_Z (2 ^ k))%Q).
+Proof.
+  split; [exact q2dy_sound|]. split; [exact dadd_sound|]. split; [exact dmul_sound|].
+  exact dclose_sound.
+Qed.
+Print Assumptions C10_dyadic_arithmetic_is_exact.
